@@ -1,4 +1,4 @@
-SPECIFICATION Spec
+SPECIFICATION MCSpec
 CONSTANTS
  Classes <- SmallClasses
  HashedClasses <- SmallHashedPinned
